@@ -1,0 +1,29 @@
+//go:build verif
+
+package memberlist
+
+// Socket-free use of the forwarding path by the verification harness: the broadcast queue is the
+// real one, what is queued is drained by the harness and handed to another node's delegate.
+
+// VerifInitQueue prepares the broadcast queue as MemberListInit does, for a cluster of n nodes.
+func (m *MemberList) VerifInitQueue(n int) {
+	m.broadcastQueue.RetransmitMult = 1
+	m.broadcastQueue.NumNodes = func() int { return n }
+}
+
+// VerifDrain returns the messages a gossip round would carry now.
+func (m *MemberList) VerifDrain() [][]byte {
+	return m.broadcastQueue.GetBroadcasts(0, 1<<24)
+}
+
+// VerifNotify delivers one gossip message to this node's delegate (built as MemberListInit builds it).
+func (m *MemberList) VerifNotify(msg []byte) {
+	NewDelegate(DelegateOpts{
+		config:         m.options.Config,
+		broadcastQueue: m.broadcastQueue,
+		addVoter:       m.options.AddVoter,
+		isRaftLeader:   m.options.IsRaftLeader,
+		applyMutate:    m.options.ApplyMutate,
+		applyDeleteKey: m.options.ApplyDeleteKey,
+	}).NotifyMsg(msg)
+}
